@@ -384,14 +384,10 @@ func runConc(c Case, tr *Tracer) {
 	if fresh {
 		alone() // the reference comes afterwards: nothing was called alone before the goroutines ran
 	}
-	for g := 0; g < ng; g++ {
-		for i, o := range prog[g] {
-			tr.emit(Ev{"ev": "Seq", "op": ids[g][i], "kind": o.kind, "res": seqres[g][i], "site": fmt.Sprintf("op%d", o.kind)})
-		}
-	}
+	// one event per call: what it returned on its goroutine (res) and what the same call returns alone (seq)
 	for g := 0; g < ng; g++ {
 		for i, res := range results[g] {
-			tr.emit(Ev{"ev": "Par", "g": g, "i": i + 1, "op": ids[g][i], "res": res, "site": fmt.Sprintf("op%d", prog[g][i].kind)})
+			tr.emit(Ev{"ev": "Par", "g": g, "i": i + 1, "op": ids[g][i], "kind": prog[g][i].kind, "res": res, "seq": seqres[g][i], "site": fmt.Sprintf("op%d", prog[g][i].kind)})
 		}
 	}
 	tr.emit(Ev{"ev": "End", "races": countRaceReports() - racesBefore, "crash": false, "site": "race-detector"})
